@@ -386,6 +386,50 @@ def memory_training_cases(run, cols):
                         theorem="C09_cache_hit_needs_equal_key")
 
 
+def edited_loaded_arrays_cases(run, cols):
+    """the arrays handed out by load_training_set belong to the caller: after
+    they were edited in place (relabelled responses, scaled samples) the label
+    'zef18' still denotes the shipped data -- later ratings by fresh objects
+    and a standalone rater equal the earlier ones, and loading again returns
+    the shipped values"""
+    from nanite.rate.rater import IndentationRater
+    st = states(cols)
+    for reg in ["Extra Trees", "SVR (RBF kernel)"]:
+        for names in (None, ["feat_con_apr_flatness", "feat_con_bln_slope",
+                             "feat_bin_size"]):
+            key = f"edited-loaded-arrays:{reg}:{'all' if names is None else 'sub'}"
+            run.case({"scenario": "edited-loaded-arrays", "regressor": reg,
+                      "names": names}, kind="edited-loaded-arrays")
+            try:
+                with warnings.catch_warnings():
+                    warnings.simplefilter("ignore")
+                    kw = {} if names is None else {"names": names}
+                    ref = st["fitted"]().rate_quality(regressor=reg, **kw)
+                    X, y = IndentationRater.load_training_set(**kw)
+                    X0, y0 = X.copy(), y.copy()
+                    y[:] = np.where(y > 5, 10, 0)
+                    X *= 3.0
+                    again = st["fitted"]().rate_quality(regressor=reg, **kw)
+                    alone = standalone(st["fitted"](), reg, names=names)
+                    X1, y1 = IndentationRater.load_training_set(**kw)
+            except BaseException as e:
+                run.failing(SITE, key, f"raised {type(e).__name__}: {e}",
+                            payload={"kind": "rerun"})
+                continue
+            why = None
+            if not (np.array_equal(X1, X0, equal_nan=True)
+                    and np.array_equal(y1, y0, equal_nan=True)):
+                why = ("after the caller edited the arrays it was given, "
+                       "load_training_set returns the edited values")
+            elif not (again == ref == alone):
+                why = (f"rating before the edit {ref}, by a fresh object "
+                       f"afterwards {again}, standalone {alone}")
+            if why:
+                run.failing(SITE, key, f"{reg}: " + why,
+                            payload={"kind": "rerun"},
+                            theorem="C09_cache_hit_needs_equal_key")
+
+
 def failed_request_cases(run, cols):
     """a rating request that raises (unknown regressor, training set
     directory that does not exist) repeated with identical arguments: it
@@ -626,6 +670,7 @@ def check(run):
     unfitted_history_cases(run, cols, big)
     working_directory_cases(run, big)
     memory_training_cases(run, big)
+    edited_loaded_arrays_cases(run, big)
     override_cases(run, big)
     failed_request_cases(run, big)
     rating_histories(run, big, ["Decision Tree", "Extra Trees"]
